@@ -146,11 +146,11 @@ fn check_trace(s: &Stream, out: &RunOut, fault_at: Option<usize>) -> Result<(u64
                 delivered += *n;
             }
             Ev::AWrite(b) => {
-                if b.is_empty() {
-                    return Err(("empty-write".into(), "the transport was asked to write zero bytes".into()));
-                }
+                // (a write of zero bytes gives the transport nothing: neither demanded nor forbidden)
                 w.extend_from_slice(b);
-                unflushed = true;
+                if !b.is_empty() {
+                    unflushed = true;
+                }
             }
             Ev::AFlush => unflushed = false,
             Ev::AErr { token, kind, .. } => {
